@@ -1,5 +1,5 @@
 import json,subprocess,os,re,sys
-tmpl=open('/tmp/seed/prompt-C31.txt').read()
+tmpl=open('/verif/tools/seedprompt.template.txt').read()
 props={json.loads(l)['id']:json.loads(l) for l in open('/verif/properties.jsonl')}
 head,rest=tmpl.split('Property (C31:',1)
 tail=rest[rest.index('\n\nTask:'):]
